@@ -492,3 +492,57 @@ def dict_option_cases(rng, n):
         dkf = rng.choice([[], [], ["meta"], [field]])
         cases.append(([s, json.loads(json.dumps(s))], dkf, dkr))
     return cases
+
+
+# ---------------------------------------------------------------------- option vectors (MC_Opts) -> argv and library meaning
+CFG_OPTS = """SPECIFICATION Spec
+CONSTANTS
+  Emit = TRUE
+INVARIANT MetaOnlyWhereSupported
+CHECK_DEADLOCK FALSE
+"""
+
+
+def mc_opts(chk):
+    r = chk.model_check("MC_Opts", CFG_OPTS, "option vectors of the command line (framework x layout x merge policy x datetime x converters x "
+                        "literal limit x unicode conversion x dict-key options x preamble x disabled types x meta)", workers=1)
+    return [json.loads(t[1]) for t in tlc.printed_tuples(r["out"], "B")]
+
+
+def option_set(o):
+    """abstract option vector -> {"argv": ..., library-side meaning} (the table Opts of C16)"""
+    argv = ["-f", o["fw"], "-s", o["layout"]]
+    policy = {"default": [("percent", 70), ("number", 10)], "exact": [("exact", 0)], "percent_50": [("percent", 50)], "number_2": [("number", 2)],
+              "percent_90 number_3": [("percent", 90), ("number", 3)], "exact number_1": [("exact", 0), ("number", 1)]}[o["merge"]]
+    if o["merge"] != "default":
+        argv += ["--merge"] + o["merge"].split()
+    kw, env = {}, {}
+    if o["datetime"]:
+        argv.append("--datetime")
+        env["datetime"] = True
+    if o["converters"]:
+        argv.append("--strings-converters")
+        kw["post_init_converters"] = True
+    if o["maxlit"] != 99:        # 99 = option not given
+        argv += ["--max-strings-literals", str(o["maxlit"])]
+        kw["max_literals"] = o["maxlit"]
+    if o["nounicode"]:
+        argv.append("--disable-unicode-conversion")
+        kw["convert_unicode"] = False
+    if o["dk"] in ("dkf", "both"):
+        argv += ["--dkf", "extra", "child"]
+        env["dkf"] = ["extra", "child"]
+    if o["dk"] in ("dkr", "both"):
+        argv += ["--dkr", "k\\d", "x"]
+        env["dkr"] = ["^k\\d$", "^x$"]
+    preamble = None
+    if o["preamble"]:
+        argv += ["--preamble", "  import os  "]
+        preamble = "import os"
+    if o["disable"] != "none":
+        argv += ["--disable-str-serializable-types"] + o["disable"].split()
+        env["disabled"] = o["disable"].split()
+    if o["meta"]:
+        argv += ["--code-generator-kwargs", "meta=true"]
+        kw["meta"] = True
+    return {"argv": argv, "fw": o["fw"], "layout": o["layout"], "policy": policy, "kw": kw, "env": env, "preamble": preamble}
